@@ -74,6 +74,7 @@ type PackOpts struct {
 	NoEmptyTrack    bool
 	AudioOnly       bool
 	BigSamples      bool
+	ManySamples     bool // a few single-track fragments hold 1000-1079 identical samples
 	WriteFaults     bool // some segments are also written to a sink that refuses one write
 	EmsgOnly        bool // with Foreign off: emsg boxes may still precede a moof
 	LargeMdat       bool // some fragments write their mdat with the 64-bit size form (MdatBox.LargeSize)
@@ -342,10 +343,24 @@ func Package(r *sim.Run, o PackOpts) (*Production, error) {
 				counts[trackIdx[0]] = 1
 				total = 1
 			}
+			// a long run of identical samples (fixed-size, fixed-duration frames as PCM-like codecs have), which trun
+			// optimisation can describe without any per-sample field
+			uniformRun := o.ManySamples && !multi && mode == "full" && t.Chance(25)
+			if uniformRun {
+				counts[trackIdx[0]] = 1000 + t.Draw(80)
+				total = counts[trackIdx[0]]
+				fr.Mode += "/uniform-run"
+			}
 			left := append([]int(nil), counts...)
 			intervalDone, singles := false, false
 			newRec := func(ti int) SampleRec {
 				video := p.Tracks[ti].Media == "video"
+				if uniformRun {
+					rec := SampleRec{Data: []byte{0xab, 0xcd}, Dur: 1024, Flags: mp4.SyncSampleFlags, Dts: nextDts[ti]}
+					nextDts[ti] += 1024
+					p.Log[ti] = append(p.Log[ti], rec)
+					return rec
+				}
 				rec := SampleRec{
 					Data:  makePayload(t, rnd, video, o.NALVideo, o.BigSamples),
 					Dur:   drawDur(t, o.HugeDurs),
